@@ -106,13 +106,41 @@ class ConstEval:
         return _BIN[type(e.op)](a, b)
       except Exception as ex:
         raise NotConst(str(ex))
+    if isinstance(e, (ast.GeneratorExp, ast.ListComp, ast.SetComp)) and len(e.generators) == 1 and not e.generators[0].is_async:
+      # a comprehension over a finite, evaluable iterable (a literal tuple, a table, a range): evaluated item by item
+      g = e.generators[0]
+      seq = self._ev(m, g.iter, cls, env)
+      if isinstance(seq, (Sym, EnumMember)) or not isinstance(seq, (list, tuple, range, frozenset, set, dict, str, bytes)):
+        raise NotConst("comprehension over a non-constant iterable")
+      out = []
+      for item in list(seq)[:4096]:
+        env2 = dict(env or {})
+        if isinstance(g.target, ast.Name):
+          env2[g.target.id] = item
+        elif isinstance(g.target, (ast.Tuple, ast.List)) and isinstance(item, (tuple, list)) and len(item) == len(g.target.elts) and all(isinstance(t, ast.Name) for t in g.target.elts):
+          for t, x in zip(g.target.elts, item):
+            env2[t.id] = x
+        else:
+          raise NotConst("comprehension target")
+        if all(self._ev(m, t, cls, env2) for t in g.ifs):
+          out.append(self._ev(m, e.elt, cls, env2))
+      return frozenset(out) if isinstance(e, ast.SetComp) else out
     if isinstance(e, ast.JoinedStr):
       parts = []
       for v in e.values:
         if isinstance(v, ast.Constant):
           parts.append(str(v.value))
-        elif isinstance(v, ast.FormattedValue) and v.format_spec is None and v.conversion == -1:
+        elif isinstance(v, ast.FormattedValue) and v.format_spec is None and v.conversion in (-1, 115):
           parts.append(str(self._ev(m, v.value, cls, env)))
+        elif isinstance(v, ast.FormattedValue) and v.conversion == -1 and isinstance(v.format_spec, ast.JoinedStr) \
+            and all(isinstance(x, ast.Constant) for x in v.format_spec.values):
+          val = self._ev(m, v.value, cls, env)
+          if isinstance(val, (Sym, EnumMember)):
+            raise NotConst("fstring of a symbolic value")
+          try:
+            parts.append(format(val, "".join(str(x.value) for x in v.format_spec.values)))
+          except Exception as ex:
+            raise NotConst(f"fstring: {ex}")
         else:
           raise NotConst("fstring")
       return "".join(parts)
@@ -330,6 +358,12 @@ class FuncEval:
         ce.ev(f.module, st.value, f.cls, env)
       elif isinstance(st, ast.Pass):
         continue
+      elif isinstance(st, ast.Assert):
+        try:
+          if not ce.ev(f.module, st.test, f.cls, env):
+            raise Raised()
+        except NotConst:
+          continue          # an assertion about something outside the evaluated domain: assumed to hold
       elif isinstance(st, ast.Return):
         raise _Return(ce.ev(f.module, st.value, f.cls, env) if st.value is not None else None)
       elif isinstance(st, ast.Raise):
